@@ -1,4 +1,5 @@
 import Lemmas.Conserve
+import Lemmas.AliasParse
 import Model.Program
 import Lemmas.Untouched
 import Lemmas.Demo
@@ -107,6 +108,55 @@ theorem alias_equiv (s : PState) (k1 k2 : Str) (args : List Str) (oid : Nat)
   split
   · exact ⟨rfl, rfl, rfl, rfl, rfl, fun o ho => by rw [opt_setOpt_ne _ _ _ _ ho, opt_setOpt_ne _ _ _ _ ho]⟩
   · exact ⟨rfl, rfl, rfl, rfl, rfl, fun o ho => by rw [opt_setOpt_ne _ _ _ _ ho, opt_setOpt_ne _ _ _ _ ho]⟩
+
+/-- **Whole command line: aliases are interchangeable.**  Two option tokens that the splitter reads as the same
+attached arguments under two keys of the level reached which name the same option (the name and an alias, two
+aliases; `-n`, `--name`, `--name=v`, …), given anywhere an option may start — at a head position or right behind an
+option that can still take values — with any tokens before and after, lead to the same result of `Parse` up to the
+spelling itself: every option record agrees in every field except `CalledAs` (value, `Called`, …), the same
+command is selected, the remaining arguments and the unknown-option log are the same, and the parse fails in one
+case exactly when it fails in the other, with the same error up to the alias quoted in the message.  Every mode,
+unknown-mode, require-order. -/
+theorem alias_parse (mode : Mode) (P : Prog) (pre post : List Str) (t1 t2 k1 k2 : Str) (args : List Str)
+    (oid : Nat) (hs : OptStart (run ext mode P pre))
+    (ht1 : isOption t1 mode = ([⟨k1, args⟩], true)) (ht2 : isOption t2 mode = ([⟨k2, args⟩], true))
+    (h1 : lookup k1 ((run ext mode P pre).P.node (run ext mode P pre).cur).opts = some oid)
+    (h2 : lookup k2 ((run ext mode P pre).P.node (run ext mode P pre).cur).opts = some oid) :
+    AObs (parseArgs ext mode P (pre ++ t1 :: post)) (parseArgs ext mode P (pre ++ t2 :: post)) :=
+  alias_parse_obs ext mode P pre post t1 t2 k1 k2 args oid hs ht1 ht2 h1 h2
+
+/-- in particular the value, `Called` and every declared attribute of every option agree -/
+theorem alias_parse_values (mode : Mode) (P : Prog) (pre post : List Str) (t1 t2 k1 k2 : Str) (args : List Str)
+    (oid : Nat) (hs : OptStart (run ext mode P pre))
+    (ht1 : isOption t1 mode = ([⟨k1, args⟩], true)) (ht2 : isOption t2 mode = ([⟨k2, args⟩], true))
+    (h1 : lookup k1 ((run ext mode P pre).P.node (run ext mode P pre).cur).opts = some oid)
+    (h2 : lookup k2 ((run ext mode P pre).P.node (run ext mode P pre).cur).opts = some oid) (o : Nat) :
+    ((parseArgs ext mode P (pre ++ t1 :: post)).P.opt o).value =
+      ((parseArgs ext mode P (pre ++ t2 :: post)).P.opt o).value ∧
+    ((parseArgs ext mode P (pre ++ t1 :: post)).P.opt o).called =
+      ((parseArgs ext mode P (pre ++ t2 :: post)).P.opt o).called ∧
+    ((parseArgs ext mode P (pre ++ t1 :: post)).err.isSome =
+      (parseArgs ext mode P (pre ++ t2 :: post)).err.isSome) := by
+  have h := alias_parse ext mode P pre post t1 t2 k1 k2 args oid hs ht1 ht2 h1 h2
+  refine ⟨?_, ?_, ?_⟩
+  · have := congrArg Opt.value (h.opts o); exact this
+  · have := congrArg Opt.called (h.opts o); exact this
+  · have := congrArg Option.isSome h.err; simpa using this
+
+/-- the alias that is recorded is the spelling used last: the error message and `CalledAs` are the only places
+where the two runs may differ, and `CalledAs` is the key of the last occurrence -/
+example :
+    let a := parseArgs Demo.ext .normal Demo.prog [b "x", b "-n", b "v", b "y"]
+    let c := parseArgs Demo.ext .normal Demo.prog [b "x", b "--name", b "v", b "y"]
+    (a.P.opt 0).value = (c.P.opt 0).value ∧ a.rem = c.rem ∧
+      (a.P.opt 0).usedAlias = b "n" ∧ (c.P.opt 0).usedAlias = b "name" := by decide
+
+example : isOption (b "-n") .normal = ([⟨b "n", []⟩], true) ∧ isOption (b "--name") .normal = ([⟨b "name", []⟩], true) ∧
+    lookup (b "n") (Demo.prog.node 0).opts = some 0 ∧ lookup (b "name") (Demo.prog.node 0).opts = some 0 ∧
+    OptStart (run Demo.ext .normal Demo.prog [b "x"]) := by
+  refine ⟨by decide, by decide, by decide, by decide, ?_⟩
+  exact ⟨by decide, Or.inl (by decide)⟩
+
 
 /-! Non-vacuity: alias `n` and name `name` set the same cell; untouched options keep their defaults. -/
 example : ((parseArgs Demo.ext .normal Demo.prog [b "-n", b "x"]).P.opt 0).value =
